@@ -21,7 +21,8 @@ func zzLE32m(raw []byte, i int) uint32 {
 // (and its initializers decoded directly in between); every load yields the same weights, exactly the
 // described values, and the description itself is left as it was.
 //
-// case: n (elements per initializer); typed (bool: the second initializer uses float_data instead of raw)
+// case: n (elements per initializer); typed (bool: the second initializer uses float_data instead of raw);
+// defaulted (bool, optional: the float initializer is also a declared graph input)
 func H_C12_model(v *zzverif.T) {
 	n := v.CInt("n")
 	raw := zzverif.Syms[byte](v, "raw", 4*n)
@@ -37,13 +38,24 @@ func H_C12_model(v *zzverif.T) {
 		return &onnx.ModelProto{OpsetImport: []*onnx.OperatorSetIdProto{{Version: 13}},
 			Graph: &onnx.GraphProto{Initializer: []*onnx.TensorProto{a, b},
 				Node:   []*onnx.NodeProto{{OpType: "Relu", Input: []string{"b"}, Output: []string{"o"}}},
-				Output: []*onnx.ValueInfoProto{{Name: "o"}}}}
+				Output: []*onnx.ValueInfoProto{{Name: "o"}, {Name: "a"}, {Name: "b"}}}}
 	}
+	defaulted := v.Has("defaulted") && v.CBool("defaulted")
 	mp := mk()
 	orig := mk() // an equal description that nothing else ever sees
+	if defaulted {
+		// the float initializer is also declared as a graph input: it is that input's default
+		for _, p := range []*onnx.ModelProto{mp, orig} {
+			if v.Has("noshape") && v.CBool("noshape") {
+				p.Graph.Input = []*onnx.ValueInfoProto{{Name: "b"}} // declared by name only: no type, no shape
+			} else {
+				p.Graph.Input = []*onnx.ValueInfoProto{zzFloatValueInfo("b", []int{1, n})}
+			}
+		}
+	}
 	unchanged := func() bool {
 		g, o := mp.Graph, orig.Graph
-		if g == nil || len(mp.OpsetImport) != 1 || mp.OpsetImport[0].Version != 13 || len(g.Initializer) != len(o.Initializer) || len(g.Node) != 1 || len(g.Output) != 1 {
+		if g == nil || len(mp.OpsetImport) != 1 || mp.OpsetImport[0].Version != 13 || len(g.Initializer) != len(o.Initializer) || len(g.Node) != 1 || len(g.Output) != 3 || len(g.Input) != len(o.Input) {
 			return false
 		}
 		for k, tp := range g.Initializer {
@@ -98,6 +110,34 @@ func H_C12_model(v *zzverif.T) {
 			v.AssertTensor("C12.model.weight-b:"+tag, zzModelParam(m, "b"), []int{1, n}, wantF)
 		}
 		v.Assert("C12.model.description-left-as-it-was:"+tag, unchanged())
+		// what a Run computes with: the weights handed out as graph outputs, before, in and after a Run in which
+		// the caller overrides the defaulted one
+		runs := []string{"run"}
+		if defaulted {
+			runs = []string{"run", "run-overriding-the-default", "run-on-the-default-again"}
+		}
+		for _, r := range runs {
+			in := Tensors{}
+			wantB := wantF
+			if r == "run-overriding-the-default" {
+				ov := zzverif.Syms[float32](v, "ov_"+tag, n)
+				in["b"] = zzverif.NewTensor(ov, []int{1, n})
+				wantB = ov
+			}
+			var out Tensors
+			var rerr error
+			p := v.Try(func() { out, rerr = m.Run(in) })
+			v.Assert("C12.model.no-panic:"+tag+":"+r, !p)
+			if p {
+				return false
+			}
+			v.Assert("C12.model.runs:"+tag+":"+r, rerr == nil && out["a"] != nil && out["b"] != nil)
+			if rerr != nil || out["a"] == nil || out["b"] == nil {
+				return false
+			}
+			v.AssertTensor("C12.model.weight-a-as-used:"+tag+":"+r, out["a"], []int{n}, wantI)
+			v.AssertTensor("C12.model.weight-b-as-used:"+tag+":"+r, out["b"], []int{1, n}, wantB)
+		}
 		return true
 	}
 	if !check("first-load") {
